@@ -170,7 +170,8 @@ def check(tier, seed, runs, workers, secs):
     unlisted, known_hits = [], {}
     by_class = {}
     for v in sorted(violations, key=lambda v: int(v["run_index"])):
-        by_class.setdefault(v["violation"]["class"], v)
+        if "violation" in v:
+            by_class.setdefault(v["violation"]["class"], v)
     for vclass, v in sorted(by_class.items()):
         path = os.path.join(V.REPLAYS, "C18-%s-%s-%s.json" % (seed, v["run_index"], V.slug(vclass)))
         with open(path, "w") as f:
